@@ -1,6 +1,6 @@
 SPECIFICATION Spec
 CONSTANTS
-  N = 7
+  N = 6
   Lens = {1}
   GenesisLen = 1
   Period = 2
